@@ -330,8 +330,8 @@ impl C11 {
 impl Prop for C11 {
     fn cases(&self, tier: Tier) -> u64 {
         match tier {
-            Tier::Quick => 60_000,
-            Tier::Thorough => 5_000_000,
+            Tier::Quick => 300_000,
+            Tier::Thorough => 12_000_000,
         }
     }
 
